@@ -217,6 +217,46 @@ func (r *smReplay) applyMove(mv smMove, genuine []byte) []byte {
 		f[0], f[1], f[2] = 0x87, byte(1+r.suite.SscLen), 0x01
 		nd := append([][]byte{f}, dos...)
 		return joinDOs(nd, sw)
+	case "forge85":
+		// DO'85' with junk, or with the value of the DO'87' of the earlier response seen[I] (with the
+		// padding-content indicator, which is how the library reads a DO'85'; without it in every third case),
+		// in front of the untouched genuine objects
+		var val []byte
+		if mv.I == 0 {
+			val = make([]byte, 1+r.suite.SscLen)
+			r.rnd.Read(val)
+			val[0] = 0x01
+		} else {
+			old := r.seen[mv.I-1]
+			if len(old) >= 2 {
+				if od, ok := splitDOs(old[:len(old)-2]); ok {
+					for _, d := range od {
+						if d[0] == 0x87 {
+							if tl, err := chipsim.ParseTLVs(d); err == nil && len(tl) == 1 && len(tl[0].Value) > 1 {
+								val = append([]byte{}, tl[0].Value...)
+								if r.rnd.Intn(3) == 0 {
+									val = val[1:]
+								}
+							}
+						}
+					}
+				}
+			}
+			if val == nil {
+				core.Infra("forge85: response %d has no DO'87'", mv.I)
+			}
+		}
+		var f []byte
+		switch {
+		case len(val) < 128:
+			f = append([]byte{0x85, byte(len(val))}, val...)
+		case len(val) < 256:
+			f = append([]byte{0x85, 0x81, byte(len(val))}, val...)
+		default:
+			f = append([]byte{0x85, 0x82, byte(len(val) >> 8), byte(len(val))}, val...)
+		}
+		nd := append([][]byte{f}, dos...)
+		return joinDOs(nd, sw)
 	}
 	core.Infra("unknown move %q", mv.Name)
 	return nil
